@@ -7,7 +7,7 @@ from vf.ob import obligation, shard
 from tartiflette import Resolver, Subscription
 
 META = {
-    "bounds": "9 subscription documents (source without resolver, several operations selected by operation_name, non-null root field, alias, fragment, literal/variable/default arguments, nested selection with a non-null leaf) + 12 invalid requests (unknown field / directive, missing or ill-typed variable, ill-typed literal, several root fields directly and through sibling / nested fragments); event sequences of "
+    "bounds": "10 subscription documents (source without resolver on the default and on a custom_default_resolver engine, several operations selected by operation_name, non-null root field, alias, fragment, literal/variable/default arguments, nested selection with a non-null leaf) + 12 invalid requests (unknown field / directive, missing or ill-typed variable, ill-typed literal, several root fields directly and through sibling / nested fragments); event sequences of "
               "length 0..3 (0..2 in the quick tier) over unbounded ints / None (payloads that are well-formed, provoke a field error, or are null); gated source and gated consumer",
     "outside": "more than 3 events per stream; several concurrent subscriptions on one engine (C15 covers execute)",
     "explanation": "Each yielded response is compared with the response the payload must produce (C01/C02 semantics), position by position; source call counter and coerced source arguments checked.",
@@ -85,6 +85,23 @@ async def _rev(parent, args, ctx, info):
 
 
 ENG = build(SDL, NAME, query_cache_decorator=DictCache())
+
+
+# a second engine: `custom_default_resolver` (public option) is what resolves a subscription root field that has a source but no @Resolver
+@Subscription("Subscription.plain", schema_name="c14b")
+async def _src_plain_b(parent, args, ctx, info):
+    SRC_CALLS.append(("plain", args))
+    for e in ST["events"]:
+        if ST["gate"]:
+            await miniloop.gate("src")
+        yield {"x_plain": e}
+
+
+async def _cdr(parent, args, ctx, info):
+    return parent.get("x_" + info.field_name) if isinstance(parent, dict) else None
+
+
+ENG_B = build("type Query { a: Int }\ntype Subscription { plain(n: Int): Int }", "c14b", query_cache_decorator=DictCache(), custom_default_resolver=_cdr)
 DOCS = [
     ("subscription { tick }", "tick", "tick", {"n": 2}),
     ("subscription S($n: Int) { t: tick(n: $n) }", "tick", "t", None),
@@ -95,8 +112,10 @@ DOCS = [
     ("subscription { s: strict(n: 1) }", "strict", "s", {"n": 1}),          # non-null root field: a failing event nulls `data` of THAT response only
     ("subscription { p: plain(n: 1) }", "plain", "p", {"n": 1}),            # source only, default resolver
     ("query Q { a } subscription S { tick } subscription T { t: tick(n: 7) }", "tick", "tick", {"n": 2}),       # several operations: operation_name selects the subscription
+    ("subscription { p: plain(n: 1) }", "plain", "p", {"n": 1}),            # the same on the engine with a custom default resolver (events keyed differently)
 ]
 OPNAME = {8: "S"}
+ENGSEL = {9: ENG_B}
 BAD = [
     ("subscription { nope }", {}), ("subscription S($n: Int!) { tick(n: $n) }", {}), ("subscription S($n: Int) { tick(n: $n) }", {"n": "str"}), ("subscription { tick ev { n } }", {}),
     # more than one root field, the second one reached through fragments placed next to the first selection
@@ -118,8 +137,8 @@ async def consume(agen, gated):
 
 def warm():
     ST["events"] = []; ST["gate"] = False
-    for q, _, _, _ in DOCS:
-        env.run(consume(ENG.subscribe(q, variables={}, operation_name="S" if " S " in q and "subscription T" in q else None), False))
+    for _di, (q, _, _, _) in enumerate(DOCS):
+        env.run(consume(ENGSEL.get(_di, ENG).subscribe(q, variables={}, operation_name="S" if " S " in q and "subscription T" in q else None), False))
     for q, v in BAD:
         env.run(consume(ENG.subscribe(q, variables=dict(v)), False))
 
@@ -179,7 +198,7 @@ def c14_stream(events: List[Optional[int]], arg: Optional[int], argmode: int, ga
     del SRC_CALLS[:]; del RES_CALLS[:]
     # `initial_value` is the parent handed to the SOURCE; every response is computed against its own event, a null event included
     iv = {"tick": 77, "t": 77, "plain": 77, "p": 77, "n": 77, "leaf": {"n": 77}, "strict": 77, "s": 77} if pickb(withiv) else None
-    ok, got = safe(lambda: env.run(consume(ENG.subscribe(q, variables=variables, operation_name=OPNAME.get(sh["doc"]), initial_value=iv), bool(sh["cgated"]))))
+    ok, got = safe(lambda: env.run(consume(ENGSEL.get(sh["doc"], ENG).subscribe(q, variables=variables, operation_name=OPNAME.get(sh["doc"]), initial_value=iv), bool(sh["cgated"]))))
     observe(got, list(SRC_CALLS))
     if not ok:
         return verdict(False)
